@@ -180,16 +180,16 @@ PROPS["C06"] = {
                  "holding a symbolic number (0..=2) of results; weighted chain Best/Worst/Random with symbolic weights 0..=3 on a 3-element and on "
                  "an empty population; DynWeighted (Best, Worst, Random) weights 0..=2, streams = 4 symbolic words then all-ones; "
                  "identity by std::ptr::eq against every element. Lexicase with >= 2 cases (all results present): MIR engine bin/mirlex (z3), populations x cases up to 4x2 / 3x3, symbolic results, "
-                 "every case order and final order: Ok with a member of the population iff the population is non-empty, Err(EmptyPopulation) otherwise (X5), and the member survives the filtering (X1). Tournament additionally on the MIR (bin/mirtour, z3): every population size N <= 5 (thorough 6) and tournament size K in 1..=N+1, symbolic values and identities, "
+                 "every case order and final order: Ok with a member of the population iff the population is non-empty, Err(EmptyPopulation) otherwise (X5), and the member survives the filtering (X1); individuals holding FEWER results than cases are configured ((1,2 of 1),(2,2 of 1),(3,2 of 1),(2,3 of 2)): Err(MissingTestCase{configured count, index}) exactly when a case without results has to be consulted while two or more candidates are left, Ok with the single survivor otherwise (X9). Tournament additionally on the MIR (bin/mirtour, z3): every population size N <= 5 (thorough 6) and tournament size K in 1..=N+1, symbolic values and identities, "
                  "the sampler replaced by its contract (every draw outcome forked): Err(TournamentSizeError(K, N)) iff K > N, otherwise Ok with a member, no panic on any path (T1)",
         "thorough": "as quick plus tournament (3,1),(3,4),(4,1),(4,4),(5,2),(5,3) and lexicase (2 individuals,0 cases),(3 individuals,1 case); MIR engine also 4x3 and 3x4",
     },
     "mirlex": True,
-    "mirlex_labels": ["X1", "X5"],
+    "mirlex_labels": ["X1", "X5", "X9"],
     # tournaments on the MIR: T1 = error iff K > N (with K, N), otherwise Ok with a member, never a panic; populations of up to 5 / 6
     "mirtour": {"quick": 5, "thorough": 6},
     "mirtour_labels": ["T1"],
-    "outside": "lexicase with two or more cases AND missing results (MissingTestCase is decided for <= 1 case under Kani only); populations larger than 5 (Kani) / 4 (MIR engine); "
+    "outside": "lexicase with individuals whose result vectors have DIFFERENT lengths among each other (missing results are decided for <= 1 case under Kani and, on the MIR, for populations whose individuals all hold fewer results than cases are configured: X9); populations larger than 5 (Kani) / 6 (MIR engines); "
                "population types other than arrays and Vec",
     "assumptions": ["rand 0.9.0 choose / choose_multiple / choose_weighted / shuffle run unmodified on the symbolic generator",
                     "bin/mirlex: rustc MIR is the semantics of the source; callee models as listed in the evidence (shuffle = every permutation, Ord on results = z3 integers); unknown statements / callees are inconclusive (exit 2)"],
